@@ -74,6 +74,171 @@ contract('odml/base.py::SmartList.append',
                  'ValueError': 'is_ref(obj_tuple_0) and (isSec(obj_tuple_0) or isProp(obj_tuple_0)) and '
                                'not any(matches(item(self, j), obj_tuple_0.name) for j in range(llen(self))) '
                                'and field(self, "_content_type") != (BaseSection if isSec(obj_tuple_0) else BaseProperty)',
-                 'AttributeError': 'not (is_ref(obj_tuple_0) and (isSec(obj_tuple_0) or isProp(obj_tuple_0) or isDoc(obj_tuple_0)))'}, 
+                 'AttributeError': 'not (is_ref(obj_tuple_0) and (isSec(obj_tuple_0) or isProp(obj_tuple_0)))'},
          on_raise='Same',
          props=('C03', 'C04', 'C06'))
+
+
+# ---- tree edits: full Inv on every exit, refused => nothing changed ---------------------------
+
+@spec
+def listed(lst, o):
+    return any(item(lst, j) is o for j in range(llen(lst)))
+
+
+@spec
+def name_used(lst, name):
+    return any(matches(item(lst, j), name) for j in range(llen(lst)))
+
+
+contract('odml/section.py::BaseSection.remove',
+         types={'self': 'BaseSection', 'obj': 'any'},
+         requires='True',
+         ensures=['field(obj, "_parent") is None',
+                  'not listed(self._sections, obj) and not listed(self._props, obj)'],
+         raises={'ValueError': 'not (isSec(obj) and listed(self._sections, obj)) and '
+                               'not (isProp(obj) and listed(self._props, obj))'},
+         on_raise='Same',
+         props=('C03', 'C06'))
+
+contract('odml/base.py::Sectionable.remove',
+         types={'self': 'BaseDocument', 'section': 'any'},
+         requires='True',
+         ensures=['field(section, "_parent") is None', 'not listed(self._sections, section)'],
+         raises={'ValueError': 'not listed(self._sections, section)'},
+         on_raise='Same',
+         props=('C03', 'C06'))
+
+contract('odml/base.py::Sectionable._check_no_cycle',
+         types={'self': ('BaseSection', 'BaseDocument'), 'section': 'any'},
+         inv=('T', 'I4'), pure=True, inline=False,
+         requires='True',
+         ensures=[],
+         raises={'ValueError': 'section is self or anc(self, section)'},
+         invariants={0: '(node is None or node is self or anc(self, node)) and '
+                        'implies(section is self or anc(self, section), '
+                        'node is not None and (section is node or anc(node, section)))'},
+         loop_var_types={'node': ('BaseSection', 'BaseDocument')},
+         props=('C03',),
+         note='partial correctness; termination follows from depth(node) decreasing (I4.depth_def)')
+
+contract('odml/section.py::BaseSection.append',
+         types={'self': 'BaseSection', 'obj': 'any'},
+         requires='True',
+         ensures=['field(obj, "_parent") is self',
+                  'listed(self._sections, obj) or listed(self._props, obj)'],
+         may_raise={'ValueError': 'not isProp(obj)',
+                    'KeyError': '(isSec(obj) and name_used(self._sections, obj.name)) or '
+                                '(isProp(obj) and name_used(self._props, obj.name))'},
+         on_raise='Same',
+         props=('C03', 'C04', 'C06'))
+
+contract('odml/base.py::Sectionable.append',
+         types={'self': 'BaseDocument', 'section': 'any'},
+         requires='True',
+         ensures=['field(section, "_parent") is self', 'listed(self._sections, section)'],
+         may_raise={'ValueError': 'True',
+                    'KeyError': 'isSec(section) and name_used(self._sections, section.name)'},
+         on_raise='Same',
+         props=('C03', 'C04', 'C06'))
+
+contract('odml/section.py::BaseSection.insert',
+         types={'self': 'BaseSection', 'position': 'any', 'obj': 'any'},
+         requires='is_int(position)',
+         ensures=['field(obj, "_parent") is self',
+                  'listed(self._sections, obj) or listed(self._props, obj)'],
+         may_raise={'ValueError': 'True'},
+         on_raise='Same',
+         props=('C03', 'C04', 'C06'))
+
+contract('odml/base.py::Sectionable.insert',
+         types={'self': 'BaseDocument', 'position': 'any', 'section': 'any'},
+         requires='is_int(position)',
+         ensures=['field(section, "_parent") is self', 'listed(self._sections, section)'],
+         may_raise={'ValueError': 'True'},
+         on_raise='Same',
+         props=('C03', 'C04', 'C06'))
+
+# ---- parent setters -----------------------------------------------------------------------------
+
+contract('odml/section.py::BaseSection.parent.setter',
+         types={'self': 'BaseSection', 'new_parent': 'any'},
+         requires='True',
+         ensures=['field(self, "_parent") is new_parent'],
+         may_raise={'ValueError': 'new_parent is not None',
+                    'KeyError': '(isSec(new_parent) or isDoc(new_parent)) and '
+                                'field(self, "_parent") is not new_parent and '
+                                'name_used(new_parent._sections, self.name)'},
+         on_raise='Same',
+         props=('C03', 'C04', 'C06'))
+
+contract('odml/property.py::BaseProperty.parent.setter',
+         types={'self': 'BaseProperty', 'new_parent': 'any'},
+         requires='True',
+         ensures=['field(self, "_parent") is new_parent'],
+         raises={'ValueError': 'new_parent is not None and not isSec(new_parent)',
+                 'KeyError': 'isSec(new_parent) and field(self, "_parent") is not new_parent and '
+                             'name_used(new_parent._props, self.name)'},
+         on_raise='Same',
+         props=('C03', 'C04', 'C06'))
+
+# ---- renaming -----------------------------------------------------------------------------------
+
+@spec
+def other_has_name(lst, me, name):
+    return any(item(lst, j) is not me and matches(item(lst, j), name) for j in range(llen(lst)))
+
+
+contract('odml/section.py::BaseSection.name.setter',
+         types={'self': 'BaseSection', 'new_value': 'any'},
+         requires='new_value is None or is_str(new_value)',
+         ensures=['implies(not new_value, field(self, "_name") == field(self, "_id"))',
+                  'implies(new_value, field(self, "_name") == new_value)'],
+         raises={'KeyError': 'new_value and old(field(self, "_name")) != new_value and '
+                             'field(self, "_parent") is not None and '
+                             'name_used(field(self, "_parent")._sections, new_value)'},
+         on_raise='Same',
+         props=('C04', 'C06'))
+
+contract('odml/property.py::BaseProperty.name.setter',
+         types={'self': 'BaseProperty', 'new_name': 'any'},
+         requires='new_name is None or is_str(new_name)',
+         ensures=['implies(not new_name, field(self, "_name") == field(self, "_id"))',
+                  'implies(new_name, field(self, "_name") == new_name)'],
+         raises={'KeyError': 'new_name and old(field(self, "_name")) != new_name and '
+                             'field(self, "_parent") is not None and '
+                             'name_used(field(self, "_parent")._props, new_name)'},
+         on_raise='Same',
+         props=('C04', 'C06'))
+
+# ---- ids ----------------------------------------------------------------------------------------
+for _fid, _cls in (('odml/section.py::BaseSection.new_id', 'BaseSection'),
+                   ('odml/property.py::BaseProperty.new_id', 'BaseProperty'),
+                   ('odml/doc.py::BaseDocument.new_id', 'BaseDocument')):
+    contract(_fid,
+             types={'self': _cls, 'oid': 'any'},
+             requires='oid is None or is_str(oid)',
+             ensures=['canon_uuid(field(self, "_id"))'],
+             raises={'ValueError': 'oid is not None and not uuid_ok(oid)'},
+             on_raise='Same',
+             props=('C04', 'C06'))
+
+# ---- reorder ------------------------------------------------------------------------------------
+contract('odml/section.py::BaseSection.reorder',
+         types={'self': 'BaseSection', 'new_index': 'any'},
+         requires='is_int(new_index)',
+         ensures=['field(self, "_parent") is old(field(self, "_parent"))',
+                  'llen(field(self, "_parent")._sections) == old(llen(field(self, "_parent")._sections))'],
+         raises={'ValueError': 'field(self, "_parent") is None or '
+                               '(isSec(field(self, "_parent")) and llen(field(self, "_parent")._sections) + '
+                               'llen(field(self, "_parent")._props) == 0)'},
+         on_raise='Same',
+         props=('C03', 'C06'))
+
+contract('odml/property.py::BaseProperty.reorder',
+         types={'self': 'BaseProperty', 'new_index': 'any'},
+         requires='is_int(new_index)',
+         ensures=['field(self, "_parent") is old(field(self, "_parent"))'],
+         raises={'ValueError': 'field(self, "_parent") is None'},
+         on_raise='Same',
+         props=('C03', 'C06'))
